@@ -521,8 +521,10 @@ def case_tt(case, ctx, teneva, rng):
     X[1] = [float(nodes_x(n[k], a[k], b[k])[int(rng.integers(n[k]))])
         for k in range(d)]
     X[1] = np.clip(X[1], a, b)
-    z = float(rng.choice([0., -7.5, 1e6, 3.25]))
-    kw = {} if z == 0. and rng.random() < .5 else {'z': z}
+    z = float(rng.choice([0., -7.5, 1e6, 3.25, 2., -1.]))
+    if z == int(z) and abs(z) < 100 and rng.random() < 0.6:
+        z = int(z)       # integer-typed fill value (documented default is 0.)
+    kw = {} if z == 0 and rng.random() < .5 else {'z': z}
     fa, fb = as_arg(rng, a), as_arg(rng, b)
     y = teneva.func_get(X, Ause, fa, fb, **kw)
     fX, fabs = mdl.f(X[:mi + mb])
@@ -660,7 +662,9 @@ def case_dense(case, ctx, teneva, rng):
     mi, mb, mo = 10, 5, 6
     X = np.vstack([inside_points(rng, a, b, mi), boundary_points(rng, a, b, mb),
         outside_points(rng, a, b, mo)])
-    z = float(rng.choice([0., -7.5, 1e6]))
+    z = float(rng.choice([0., -7.5, 1e6, 3.]))
+    if z == int(z) and abs(z) < 100 and rng.random() < 0.5:
+        z = int(z)
     fa, fb = as_arg(rng, a), as_arg(rng, b)
     y = teneva.func_get_full(X, Ad, fa, fb, z)
     fX, fabs = mdl.f(X[:mi + mb])
